@@ -382,6 +382,9 @@ func gridClass(s gen.GridSpec) string {
 	if s.Kind == "builtin" {
 		return s.Name
 	}
+	if s.Kind == "derived" {
+		return "derived:" + s.String()
+	}
 	if s.OX == 0 && s.OY == 0 {
 		return "synthetic-origin0"
 	}
